@@ -10,7 +10,7 @@ PID = "C13"
 ALLOWED_AXIOMS = ["Classical_Prop.classic", "ClassicalDedekindReals.sig_forall_dec",
                   "ClassicalDedekindReals.sig_not_dec", "FunctionalExtensionality.functional_extensionality_dep"]
 PROFILES = ["debug"]
-SHARD_TIMEOUT = 300         # seconds; a hanging implementation becomes TIMEOUT lines, not a stalled check
+SHARD_TIMEOUT = {"quick": 300, "thorough": 1200}   # seconds per implementation shard; a hang becomes TIMEOUT lines, not a stalled check
 CASES_PER_SHARD = 100      # sessions are expensive on the model: use all cores
 CORRESPONDENCE = ("Vm::prepare_eval + Vm::run_count(budget) resume loop (wire 72/73) and Vm::eval (wire 70) "
                   "vs Model/Vm.v run_count / Model/WireVm.v resume")
